@@ -199,7 +199,12 @@ def run(ctx, rep: Report, deep: bool = False):
             if rng.random() < 0.5:
                 files += [GA.SampleFile("PAD-L", GA.random_words(rng, 20)), GA.SampleFile("PAD-R", GA.random_words(rng, 20))]
             vols.append(GA.Volume(rng.choice(["DRUMS", "DRUMS", "VOL.", "KEYS"]), files))
-        disc = GA.Disc([GA.Partition(vols, sectors=40), GA.Partition([GA.Volume("DRUMS", [GA.SampleFile("KICK", GA.random_words(rng, 5))])], sectors=10)])
+        # S163: one stored name used for a FILE in the first partition and for a VOLUME in the second - names whose
+        # file form and directory form differ (trailing dots / hyphen): a directory must not inherit the file's form
+        shared = ["T-T..", "..", "X-", "A."][i % 4]
+        vols[0].files.append(GA.SampleFile(shared, GA.random_words(rng, 7)))
+        disc = GA.Disc([GA.Partition(vols, sectors=40), GA.Partition([GA.Volume("DRUMS", [GA.SampleFile("KICK", GA.random_words(rng, 5))]),
+                                                                       GA.Volume(shared, [GA.SampleFile("IN", GA.random_words(rng, 6))])], sectors=12)])
         img, _ = GA.serialize(disc, rng)
         with E.Scratch() as sc:
             pth = sc.write("x.img", img)
